@@ -306,6 +306,22 @@ Theorem C08_x86_64_linux_directmap_witness : forall img hl_fuel s first last,
 Proof. exact directmap_by_pgt_witness. Qed.
 Print Assumptions C08_x86_64_linux_directmap_witness.
 
+(** the offset installed for a region found through the page tables, [-first],
+    IS the page tables' offset: some address [n] ([first] itself at the fixed
+    locations, else the lowest mapped address from [first] on) is sent by the page
+    tables to [n - first], i.e. where the direct method sends it.  So a direct map
+    whose first mapped page is not physical frame 0 is never installed as a
+    region starting at that page (seeded C08-e1); with C08_x86_64_linux_finds_region
+    [n] is [first] on a canonical image *)
+Theorem C08_x86_64_linux_directmap_offset_is_pgt : forall img hl_fuel s first last,
+  linux_directmap_by_pgt img hl_fuel s = (OK, (first, last)) ->
+  first < 2^64 ->
+  (vtop_pgt img s first = (OK, 0) -> kv2kphys img s first = (OK, 0)) ->
+  exists n p, kv2kphys img s n = (OK, p) /\ wsub p n = wsub 0 first /\
+              (n < 2^64 -> p < 2^64 -> lin (neg_u64 first) n = p).
+Proof. exact directmap_offset_is_pgt. Qed.
+Print Assumptions C08_x86_64_linux_directmap_offset_is_pgt.
+
 (** on an image that is linear on a set [inside] of addresses (containing the
     start of the region and what the scan looked at), every address of the set
     that the page tables map is sent by the direct method ([off = -first]) to
